@@ -312,7 +312,7 @@ def numgrad(fn, x, h=None, replace_neg_inf=True):
         if np.any(np.isneginf(f)):
             return np.zeros(dim)
 
-    grad = np.gradient(f, *h, axis=0)
+    grad = np.gradient(f, axis=0) / h
     return grad[1, :]
 
 
